@@ -153,16 +153,16 @@ def diffs(ctx, shard, nshards):
                 V.add(tag, {"a": fa, "b": l, "exp": "%d" % x, "kind": "diff"}, expected="%d" % x, actual=o,
                       weight=abs(b[0] - a[0]))
         # the same value however often and wherever %rS stands in the format
-        if it % 10 == 0:
+        if it % 4 == 0:
             b = bs[0]
             x = L.tai_of(*b) - L.tai_of(*a)
             if abs(b[0] - a[0]) < I31:
-                r = run_args(ctx.build, "ddiff", [fa, dtxt(*b), "-f", "%rS %rS|%rS"])
+                r = run_args(ctx.build, "ddiff", [fa, dtxt(*b), "-f", "%rS %rS|%rS;%rT"])
                 got = (r.lines() or [""])[0]
-                want = "%d %d|%d" % (x, abs(x), abs(x))
+                want = "%d %d|%d;%ds" % (x, abs(x), abs(x), abs(x))
                 sub.evaluations += 1
                 if got != want:
-                    V.add("ddiff:%rS:repeated", {"a": fa, "b": dtxt(*b), "fmt": "%rS %rS|%rS", "exp": want, "kind": "diff"},
+                    V.add("ddiff:%rS:repeated", {"a": fa, "b": dtxt(*b), "fmt": "%rS %rS|%rS;%rT", "exp": want, "kind": "diff"},
                           expected=want, actual=got, weight=abs(b[0] - a[0]))
     sub.sample({"cmd": "ddiff 2012-06-30T23:59:59 2012-07-01T00:00:01 -f %rS", "expected": "3"})
     return sub
